@@ -42,7 +42,13 @@ def class_source(name, feats, prev):
         L.append("\tfl: float")
     if "cur" in feats:
         L.append("\tcur: Self")
-    L.append("\tconstructor(self, n: int) {")
+    if "c2" in feats:
+        # a constructor with three parameters: the two extra ones end in `tag` in an order-sensitive way
+        L.append("\ttag: int")
+        L.append("\tconstructor(self, n: int, t: int, u: int) {")
+        L.append("\t\tself.tag = t * 10 + u")
+    else:
+        L.append("\tconstructor(self, n: int) {")
     L.append("\t\tself.n = n + kseed - 5")      # kseed: a module-level variable only the constructor mentions
     if "flag" in feats:
         L.append("\t\tself.flag = false")
@@ -79,7 +85,12 @@ def class_source(name, feats, prev):
     L.append("\tfn add(self, d: int) -> int {\n%s\t\treturn self.n\n\t}" % add_body)
     L.append("\tfn twice(self, d: int) -> int {\n\t\ta = self.add(d)\n\t\tb = self.add(d)\n\t\treturn a + b\n\t}")
     L.append("\tfn me(self) -> Self {\n\t\treturn self\n\t}")
-    L.append("\tfn fresh(self) -> Self {\n\t\treturn Self(self.n + 100)\n\t}")
+    L.append("\tfn fresh(self) -> Self {\n\t\treturn Self(self.n + 100%s)\n\t}" % (", 3, 4" if "c2" in feats else ""))
+    L.append("\tfn add2(self, x: int, y: int) -> int {\n\t\tself.n += x * 10 + y\n\t\treturn self.n\n\t}")
+    if "clo" in feats:
+        # closures made by a method: one names a field of the object directly, one goes through a local alias of self
+        L.append("\tfn mkbare(self) -> fn() -> int {\n\t\treturn fn() -> int {\n\t\t\treturn n\n\t\t}\n\t}")
+        L.append("\tfn mkme(self) -> fn(int) -> int {\n\t\tme = self\n\t\treturn fn(d: int) -> int {\n\t\t\treturn me.add(d)\n\t\t}\n\t}")
     L.append("\tfn swapn(self, x: Self) {\n\t\tt = self.n\n\t\tself.n = x.n\n\t\tx.n = t\n\t}")
     cp = "\t\tself.n = x.n\n"
     if "s" in feats:
@@ -137,6 +148,7 @@ class HObj:
         self.big = 1
         self.fl = 0.0
         self.cur = self
+        self.tag = 0
 
 
 class Interp:
@@ -167,6 +179,7 @@ class Interp:
         self.em.code("r0 = 0\nr1 = \"\"")
         self.r0, self.r1 = 0, ""
         self.helpers = set()
+        self.clos = []      # closures made by methods: (name, kind, object)
         self.regs = {}
         self.vars = {}      # name -> HObj
         self.order = []
@@ -175,9 +188,16 @@ class Interp:
         self.next_id = 0
         self.step = 0
 
-    def new_obj(self, cls, n):
+    def new_obj(self, cls, n, tag=12):
         self.next_id += 1
-        return HObj(self.next_id, cls, n, self.feats[cls])
+        o = HObj(self.next_id, cls, n, self.feats[cls])
+        o.tag = tag
+        return o
+
+    def ctor(self, cls, nexpr, t=1, u=2):
+        if "c2" in self.feats[cls]:
+            return "%s(%s, %d, %d)" % (cls, nexpr, t, u)
+        return "%s(%s)" % (cls, nexpr)
 
     def fresh_var(self, o):
         name = "v%d" % self.n
@@ -197,6 +217,9 @@ class Interp:
             f = self.feats[o.cls]
             em.code("print %s.n" % name)
             em.out(str(o.n))
+            if "c2" in f and self.step % 3 == 0:
+                em.code("print %s.tag" % name)
+                em.out(str(o.tag))
             if "fl" in f and self.step % 2:
                 em.code("print %s.fl" % name)
                 em.out(fmt_float(o.fl))
@@ -212,9 +235,10 @@ class Interp:
         if k == "new":
             if op["cls"] not in self.feats:
                 return False
-            o = self.new_obj(op["cls"], op["n"])
+            t, u = 1 + op["n"] % 3, 2 + op["n"] % 5
+            o = self.new_obj(op["cls"], op["n"], t * 10 + u)
             name = self.fresh_var(o)
-            em.code("%s = %s(%d)" % (name, op["cls"], op["n"]))
+            em.code("%s = %s" % (name, self.ctor(op["cls"], str(op["n"]), t, u)))
             return True
         if k == "bulk_new":
             # many objects constructed in a loop and kept in a list; one of them is fetched afterwards
@@ -224,7 +248,7 @@ class Interp:
             ln = "bl%d" % self.n
             self.n += 1
             n_ = op["n"]
-            em.code("%s: [%s...] = []\nfrom 0 to %d, bi {\n\t%s.push(%s(bi))\n}" % (ln, cls, n_, ln, cls))
+            em.code("%s: [%s...] = []\nfrom 0 to %d, bi {\n\t%s.push(%s)\n}" % (ln, cls, n_, ln, self.ctor(cls, "bi")))
             objs = [self.new_obj(cls, i) for i in range(n_)]
             self.lists[ln] = (cls, objs)
             name = self.fresh_var(objs[op["i"] % n_])
@@ -238,7 +262,7 @@ class Interp:
             h = "churn_%s" % cls
             if h not in self.helpers:
                 self.helpers.add(h)
-                em.code("%s = fn(q: int) -> int {\n\tkseed = 300\n\tt = %s(q)\n\tr = t.getn()\n\tt.setn(q + 1)\n\treturn t.add(1) + t.getn() + r * 1000 + kseed - 300\n}" % (h, cls))
+                em.code("%s = fn(q: int) -> int {\n\tkseed = 300\n\tt = %s\n\tr = t.getn()\n\tt.setn(q + 1)\n\treturn t.add(1) + t.getn() + r * 1000 + kseed - 300\n}" % (h, self.ctor(cls, "q")))
             em.code("print %s(%d)" % (h, op["n"]))
             em.out(str(2 * (op["n"] + 2) + op["n"] * 1000))
             return True
@@ -349,13 +373,47 @@ class Interp:
                 name = self.fresh_var(a)
                 em.code("%s = %s.me()" % (name, an))
             elif m == "fresh":
-                o = self.new_obj(a.cls, a.n + 100)
+                o = self.new_obj(a.cls, a.n + 100, 34)
                 name = self.fresh_var(o)
                 em.code("%s = %s.fresh()" % (name, an))
             elif m == "chainfresh":
                 # a chained call on the DIFFERENT object a Self-returning method hands back; the receiver is untouched
                 em.code("print %s.fresh().add(%d)" % (an, op["v"]))
                 em.out(str(a.n + 100 + op["v"]))
+            elif m == "add2":
+                # two arguments, the first one a call that updates an object the second one reads
+                if b is None:
+                    return False
+                d = 1 + op["v"] % 3
+                em.code("print %s.add2(%s.add(%d), %s.n)" % (an, op["b"], d, op["b"]))
+                b.n += d
+                if "xs" in self.feats[b.cls]:
+                    b.xs.append(d)
+                x, y = b.n, b.n
+                a.n += x * 10 + y
+                em.out(str(a.n))
+            elif m == "mkclo":
+                if "clo" not in f:
+                    return False
+                kind = "bare" if op["v"] % 2 else "me"
+                gname = "g%d" % len(self.clos)
+                em.code("%s = %s.%s()" % (gname, an, "mkbare" if kind == "bare" else "mkme"))
+                self.clos.append((gname, kind, a))
+            elif m == "callclo":
+                # the closure stays bound to the object it was made on, whatever the variable refers to by now
+                if not self.clos:
+                    return False
+                gname, kind, o = self.clos[op["v"] % len(self.clos)]
+                if kind == "bare":
+                    em.code("print %s()" % gname)
+                    em.out(str(o.n))
+                else:
+                    d = 1 + op["v"] % 4
+                    em.code("print %s(%d)" % (gname, d))
+                    o.n += d
+                    if "xs" in self.feats[o.cls]:
+                        o.xs.append(d)
+                    em.out(str(o.n))
             elif m == "sumread":
                 # one expression reads a field and calls a method that updates it: operands are evaluated left to right
                 form = op["v"] % 4
@@ -604,7 +662,7 @@ class Interp:
 
 METHODS = ["getn", "setn", "resetn", "add", "twice", "me", "fresh", "chain", "swapn", "sets", "cat", "size", "resize", "seto",
            "clearo", "link", "peern", "bumppeer", "getpeer", "attach", "othern", "copyfrom", "copyfrom", "getme", "toggle", "toggle", "negn", "grow", "both", "drain", "chainfresh", "chainpeer", "sharexs", "sharexs",
-           "resize", "flip", "flip", "addf", "sumread", "sumread", "curadd", "curadd", "curn", "setcur", "getcur"]
+           "resize", "flip", "flip", "addf", "sumread", "sumread", "curadd", "curadd", "curn", "setcur", "getcur", "add2", "add2", "mkclo", "mkclo", "callclo", "callclo", "callclo"]
 
 
 def gen_op(rng, it):
@@ -653,7 +711,7 @@ def gen_classes(rng):
     names = rng.sample(CLASS_NAMES, n)
     out = []
     for i, name in enumerate(names):
-        feats = [x for x in ("s", "xs", "o", "peer", "other", "me") if rng.chance(3, 5)] + [x for x in ("flag", "big", "fl", "bare", "cur") if rng.chance(1, 3)]
+        feats = [x for x in ("s", "xs", "o", "peer", "other", "me") if rng.chance(3, 5)] + [x for x in ("flag", "big", "fl", "bare", "cur", "c2", "clo") if rng.chance(1, 3)]
         if i == 0:
             feats = [x for x in feats if x != "other"]
         out.append([name, feats])
